@@ -511,6 +511,8 @@ class Gen:
                 return 'simple:%d' % r.randint(0, 99)
             return parts[0] + ":" + body(parts[1])
         def body(b):
+            if nrs == 0:            # no rule sets to switch to: the corresponding action without a switch
+                b = {'sw': 'cont', 'rsw': 'rcont', 'swret': 'ret'}.get(b, b)
             if b in ('ret', 'rret', 'err'):
                 return "%s.%d" % (b, r.randint(0, 99))
             if b in ('cont', 'rcont'):
